@@ -132,6 +132,12 @@ def run_backend(kind, max_members, max_retries, with_raise, budget, chk, pdim=1)
                 problems.append('(5) more than max_retries+1 consecutive failed corrections')
             if streak == max_retries + 1 and idx != len(outcomes) - 1:
                 problems.append('(5) run continued after the retry budget was exhausted')
+        # the run may only stop because the member limit is reached, the retry budget of the CURRENT step is exhausted,
+        # or the last member left the target interval (decided below by the solver)
+        final_streak = 0
+        for o in outcomes:
+            final_streak = 0 if o is True else final_streak + 1
+        needs_target_exit = len(fam) < max_members and final_streak != max_retries + 1
         # members are exactly what the corrector returned, in order, with their aux
         acc = [k for k, o in enumerate(outcomes) if o is True]
         for mi, k in enumerate(acc, start=1):
@@ -216,6 +222,19 @@ def run_backend(kind, max_members, max_retries, with_raise, budget, chk, pdim=1)
                      _replay_steps(kind, max_members, max_retries, outcomes, env, pdim), env)
         else:
             chk.unknown(base + '/predictions+steps(3,4)', v)
+        if needs_target_exit:
+            with explore.activate(ex):
+                outside = Or(*[Or(Sym.lift(fam[-1][i]) < tmin[i], Sym.lift(fam[-1][i]) > tmax[i]) for i in range(pdim)]) if len(fam) > 1 else False
+            v, m = ex.prove(p, outside)
+            if v == 'unsat':
+                chk.ok(base + '/stop-reason', 'stopped below the member limit with retries left: the last member is outside the target interval')
+            elif v == 'sat':
+                env = model_to_env(m)
+                chk.fail('C13/%s/stop-reason' % tag if not any(o['id'] == 'C13/%s/stop-reason' % tag for o in chk.obl) else base + '/stop-reason',
+                         'the run gave up with %d of %d members although the current step had used %d of %d retries and the last member is inside the target (outcomes %s, %s)' % (
+                             len(fam), max_members, final_streak, max_retries, outcomes, fmt_env(env)), _replay_struct(kind, max_members, max_retries, outcomes), env)
+            else:
+                chk.unknown(base + '/stop-reason', v)
         if tgoals:
             v, m, k = ex.prove_all(p, tgoals)
             if v == 'unsat':
@@ -305,12 +324,15 @@ streak = 0
 for i, o in enumerate(used):
     streak = 0 if o is True else streak + 1
     if streak > %d + 1 or (streak == %d + 1 and i != len(used) - 1): bad.append('retries')
+fs = 0
+for o in used: fs = 0 if o is True else fs + 1
+if len(resp.family_repr) < %d and fs != %d + 1 and len(used) < len(outcomes): bad.append('gave up early')
 acc = [k for k, o in enumerate(used) if o is True]
 for mi, k in enumerate(acc, start=1):
     if not np.allclose(resp.family_repr[mi], [0.01 * (k + 1), 0.0]): bad.append('member identity')
     if info['aux'][mi - 1].get('period') != float(k): bad.append('aux alignment')
 _verdict(bool(bad), problems=bad, info={k: v for k, v in info.items() if k.endswith('count') or k == 'iterations'})
-''' % (outcomes, kind, corr, max_members, max_retries, max_members, max_retries, max_retries)
+''' % (outcomes + [True, True, True], kind, corr, max_members, max_retries, max_members, max_retries, max_retries, max_members, max_retries)
 
 
 def _replay_steps(kind, max_members, max_retries, outcomes, env, pdim):
